@@ -34,6 +34,8 @@ def run(tier):
             for a in cfg["args"]:
                 if arggen.is_cont(a["kind"]):
                     a["sep"] = ord(",;:+/|"[(t + len(a["l"])) % 6])
+                    if a["kind"] == "mapsi" and a["sep"] == 44:
+                        a["sep"] = 59                       # ',' is the pair separator of key-value containers: refused as list separator
             acts = []
             for _ in range(6):
                 line = gen_valid(g, cfg)
